@@ -13,6 +13,7 @@ import hashlib
 import json
 import os
 import random
+import re
 import sys
 import time
 import traceback
@@ -44,6 +45,8 @@ def draw_policy(rng, weights=(0.5, 0.3, 0.2)):
         return {"kind": "random", "p": p}
     if r < weights[0] + weights[1]:
         return {"kind": "pct", "d": rng.choice([1, 2, 3]), "est": None}
+    if len(weights) > 3 and r >= weights[0] + weights[1] + weights[2]:
+        return {"kind": "race"}
     return {"kind": "single", "d": rng.choice([1, 1, 2, 3]), "est": None}
 
 
@@ -58,6 +61,8 @@ def make_policy(spec, seed):
         return sched.Single(rng, spec["d"], spec["est"])
     if k == "none":
         return sched.Single(rng, 0, 1)
+    if k == "race":
+        return sched.Race(rng, spec.get("plan"))
     if k == "script":
         return sched.Scripted(sched.unrle(spec["schedule"]), lenient=spec.get("lenient", False))
     raise ValueError(k)
@@ -72,7 +77,77 @@ class Env:
         self.fault_rng = random.Random(splitmix64(seed ^ 0xFA017))
 
 
-def execute(check, case, spec, seed, want_log=False):
+_SRC = {}
+_ATTR = re.compile(r"\.([A-Za-z_]\w*)")
+_STORE = re.compile(r"\.([A-Za-z_]\w*)\s*(?:=(?!=)|\+=|-=)")
+
+
+def _line_attrs(site):
+    """(attribute names mentioned, attribute names stored) on a source line of rich, textually."""
+    if site not in _SRC:
+        import linecache
+        import os
+
+        path = os.path.join(os.environ.get("DSIM_REPO", "/repo"), "rich", site[0])
+        text = linecache.getline(path, site[1])
+        stores = frozenset(_STORE.findall(text))
+        if stores:
+            # stores in constructors initialise an object nobody shares yet
+            for ln in range(site[1], 0, -1):
+                t = linecache.getline(path, ln).lstrip()
+                if t.startswith("def "):
+                    if t.startswith(("def __init__", "def __post_init__")):
+                        stores = frozenset()
+                    break
+        t = text.lstrip()
+        check = t.startswith(("if ", "elif ", "while ", "assert ")) or " if " in t or " and " in t or " or " in t
+        _SRC[site] = (frozenset(_ATTR.findall(text)), stores, check)
+    return _SRC[site]
+
+
+def race_plan(trace, rng, window=10):
+    """From the yield trace of a dry run: pick a check-then-act candidate (thread A mentions attribute X
+    on two different lines within `window` of its own line yields) whose X another thread B stores, and
+    the operation boundary at which B is held back beforehand.  None if the run has no such pair."""
+    per = {}
+    stores = {}
+    nops = {}
+    for tid, y, kind, site, tkind in trace:
+        if kind == "op" and site is None:
+            nops[tid] = nops.get(tid, 0) + 1
+        if kind != "line" or site is None:
+            continue
+        names, st, chk = _line_attrs(site)
+        per.setdefault(tid, []).append((site, names, chk))
+        for x in st:
+            stores.setdefault(x, set()).add((tid, site, nops.get(tid, 0), tkind))
+    cands = {}
+    for tid, seq in per.items():
+        occ = {}
+        for j in range(len(seq)):
+            sj, nj, _ = seq[j]
+            occ[sj] = occ.get(sj, 0) + 1
+            if not nj or j == 0:
+                continue
+            for i in range(max(0, j - window), j):
+                si, ni, chk = seq[i]
+                if si[0] != sj[0] or si[1] == sj[1] or not chk:
+                    continue  # (the earlier line must test something: check-then-act)
+                for x in ni & nj:
+                    if any(b != tid for b, _, _, _ in stores.get(x, ())):
+                        cands.setdefault(x, set()).add((tid, sj, occ[sj]))
+    if not cands:
+        return None
+    x = rng.choice(sorted(cands))
+    a, a_site, a_occ = rng.choice(sorted(cands[x]))
+    b, b_site, opno, bkind = rng.choice(sorted(s for s in stores[x] if s[0] != a))
+    # B is held at one of its operation boundaries before the operation that stores (the store may
+    # need a whole earlier operation of B to run first, e.g. the stop() before a start())
+    hold = max(1, opno - rng.choice([0, 1, 1, 2])) if opno else 0
+    return {"attr": x, "A": a, "a_site": list(a_site), "a_occ": a_occ, "B": b, "b_site": list(b_site), "hold_op": hold}
+
+
+def execute(check, case, spec, seed, want_log=False, want_trace=False):
     """One run of one case under one policy.  Returns a result dict."""
     if spec["kind"] in ("pct", "single") and spec.get("est") is None:
         dry = execute(check, case, {"kind": "none"}, seed)
@@ -80,6 +155,13 @@ def execute(check, case, spec, seed, want_log=False):
         if dry["violations"] or dry["harness_error"]:
             dry["policy"] = {"kind": "none"}
             return dry
+    if spec["kind"] == "race" and "plan" not in spec:
+        dry = execute(check, case, {"kind": "none"}, seed, want_trace=True)
+        if dry["violations"] or dry["harness_error"]:
+            dry["policy"] = {"kind": "none"}
+            dry.pop("trace", None)
+            return dry
+        spec = dict(spec, plan=race_plan(dry.pop("trace"), random.Random(splitmix64(seed ^ 0x7ACE))))
     policy = make_policy(spec, seed)
     sim = sched.Sim(policy, max_steps=case.get("max_steps", 2_000_000), max_vtime=case.get("max_vtime", 1.0e4))
     res = {
@@ -87,6 +169,8 @@ def execute(check, case, spec, seed, want_log=False):
         "switches": 0, "switch_sig": "", "faults": {}, "probes": {}, "nontrivial": False,
         "schedule": None, "digest": None, "sample": None, "stats": {},
     }
+    if want_trace:
+        sim.trace = []
     try:
         with seams.Seams(line_modules=check.line_modules, opcode_modules=check.opcode_modules(case)):
             env = Env(seed)
@@ -119,6 +203,8 @@ def execute(check, case, spec, seed, want_log=False):
             res["harness_error"] = "%s: %s" % (kind, detail)
     if want_log:
         res["log"] = sim.log
+    if want_trace:
+        res["trace"] = sim.trace
     return res
 
 
